@@ -13,8 +13,9 @@ def random_sim_case(rng, kind="sim", small=True, algos=ALGOS, allow_pp_single=Fa
                     workload=None, prio_weights=None, npipes=None, mem_levels=None, tps=None, pools=None):
     algo = rng.choice(list(algos))
     tps = tps or gen.pick_tps(rng, small=rng.random() < 0.8)
-    max_ticks = max_ticks or rng.choice([60, 200, 600, 1500])
-    duration = max_ticks / tps
+    max_ticks = max_ticks or rng.choice([60, 200, 600, 1500, rng.randint(40, 900), rng.randint(40, 900)])
+    # durations need not be a whole number of ticks (the run then covers floor(duration * tps) ticks)
+    duration = (max_ticks + rng.choice([0, 0, 0, 0.25, 0.5])) / tps
     if pools is None:
         pools = 2 if algo == "priority-pool" else rng.choice([1, 1, 2, 3, 4])
     cpus = rng.choice([1, 2, 4, 10, 64] if small else [4, 10, 64])
